@@ -23,7 +23,7 @@ def run(ctx):
     # R0: spec -> code on the inner feasibility routine: every triple TLC enumerated, with the declarative answer
     import json, os, tempfile
     from ..common import mktempdir as _mktempdir
-from ..common import run_driver_parallel
+    from ..common import run_driver_parallel
     dump = os.path.join(_mktempdir(prefix="feasdump_"), "dump.json")
     r = tlc.run_tlc("FeasMGH", workers=1, env={"DUMP_FILE": dump}, init="DumpInit", nxt="Next", constants=dict(MaxD=3, MaxCnt=3), heap="4g")
     feas_div = 0
